@@ -184,6 +184,25 @@ func cmdCheck(argv []string) int {
 			units = append(units, eng.verifyUnit(su.fn, su.ct, nil, ""))
 		}
 	}
+	// frame / effect obligations decided on the SSA form
+	for _, d := range eng.db.Effects {
+		if !hasProp(d.Props, *prop) && *prop != "ALL" {
+			continue
+		}
+		var onlyFn func(string) bool
+		if onlyRe != nil {
+			onlyFn = onlyRe.MatchString
+		}
+		units = append(units, eng.effectUnits(d, onlyFn)...)
+		switch d.Kind {
+		case "noglobalwrites":
+			eng.effectAssumptions["frame analysis (noglobalwrites): memory reachable from a function's parameters is package-level state only if it was derived from a package-level variable in a caller and handed in through a parameter the inferred frame records (pointers parked in heap objects are not followed)"] = true
+			eng.effectAssumptions["frame analysis (noglobalwrites): functions of dependencies do not write through their arguments, except the listed writers (sort.*, slices.Sort*, sync.* other than mutexes, sync/atomic, container/*, bytes/strings builders, math/rand; append/copy/delete/clear)"] = true
+			eng.effectAssumptions["frame analysis (noglobalwrites): function values that are not function literals of the calling function are assumed not to write package-level state"] = true
+		case "readonly":
+			eng.effectAssumptions["effect analysis (readonly "+d.Prefix+"): a function of the dependency modifies a value only after calling its AssertMutable guard (true of the generated pdata code); the classification follows static calls inside the dependency"] = true
+		}
+	}
 	scratch, err := os.MkdirTemp("", "govc-")
 	if err != nil {
 		fmt.Fprintln(os.Stderr, err)
@@ -284,6 +303,9 @@ func cmdCheck(argv []string) int {
 		}
 	}
 	res.Obligations = final
+	for a := range eng.effectAssumptions {
+		assumedSet[a] = true
+	}
 	res.Assumed = sortedKeys(assumedSet)
 	sort.Strings(res.Abstracted)
 	res.Abstracted = uniq(res.Abstracted)
